@@ -58,7 +58,7 @@ type cmdOutcome struct {
 	TimedOut   bool
 	SendErr    error
 	SentAtStep int
-	FromIdx    int // number of responses parsed when the command started to be sent
+	FromIdx    int           // number of responses parsed when the command started to be sent
 	LitWait    time.Duration // simulated time spent waiting for the answer to a synchronising literal announcement
 }
 
